@@ -46,7 +46,16 @@ def gen_timeline(rng, n, off_min, boundaries):
     for i in range(n):
         if i > 0:
             r = rng.random()
-            if crossed < boundaries and r < 0.35:
+            if crossed < boundaries and r < 0.07:
+                # almost a year later: read in the same year the next stamp lies 25 h .. 60 h *before* this one (more than a
+                # day backwards = a year boundary by the statement; the 24..25 h band, where the statement and s4's 25 h
+                # threshold could disagree, is left out)
+                y_, mo_, d_, h_, mi_, s_, _ = world.civil(t, off_min)
+                if mo_ == 2 and d_ == 29:
+                    d_ = 28
+                same_next_year = ((c14.days_from_civil(y_ + 1, mo_, d_) * 86400 + h_ * 3600 + mi_ * 60 + s_) - off_min * 60) * NS
+                step = same_next_year - rng.randint(25 * 3600 + 60, 60 * 3600) * NS - t
+            elif crossed < boundaries and r < 0.35:
                 step = rng.randint(40, 299) * DAY + rng.randrange(86400) * NS
             else:
                 step = rng.choice((0, 1, 60, 3600, 86400, 5 * 86400, 20 * 86400)) * NS
